@@ -128,7 +128,7 @@ class Gen:
     # ---- patterns
     def pattern(self, d=0, allow_as=True):
         r = self.r
-        k = r.randrange(9 if d < 3 else 4)
+        k = r.randrange(10 if d < 3 else 4)
         if k in (0, 1):
             p = N("PATTERN_VARIABLE", self.name())
         elif k == 2:
@@ -162,12 +162,16 @@ class Gen:
                 ch.append(N("PATTERN_SPREAD", T(".."), self.name() if r.random() < 0.6 else None))
             ch.append(T("]"))
             p = N("PATTERN_LIST", ch)
-        else:
+        elif k == 8:
             if d == 0:
                 p = N("LITERAL", T(r.choice(["1", "2.5"])))
             else:
                 p = N("UNARY_OP", T("-"), N("LITERAL", T(r.choice(["1", "2.5"]))))
-        if allow_as and r.random() < 0.12 and (self.as_on_var or p[1] not in ("PATTERN_VARIABLE", "UNARY_OP")):
+        else:
+            # string prefix: the rest of the string is bound to a name or discarded
+            rest = N("PATTERN_VARIABLE", self.name()) if r.random() < 0.5 else N("HOLE", self.discard())
+            p = N("PATTERN_CONCAT", N("LITERAL", T(r.choice(['"s"', '"a b"', '"https://"', '"é💣"', '""']))), T("<>"), N("PATTERN_VARIABLE", rest))
+        if allow_as and r.random() < 0.12 and (self.as_on_var or p[1] not in ("PATTERN_VARIABLE", "UNARY_OP", "PATTERN_CONCAT")):
             p = N("AS_PATTERN", p, T("as"), N("PATTERN_VARIABLE", self.name()))
         return p
 
